@@ -245,8 +245,11 @@ func hC02Sound(kind, maxN, maxDim int) {
 	th := vF32("th")
 	vAssume(th >= 0)
 	var filt []uint32
-	if vChoose("filt", 2) == 1 {
+	switch vChoose("filt", 3) {
+	case 1:
 		filt = []uint32{vIDs[n-1], 77}
+	case 2: // unsorted, span == length, not a contiguous run: (5, 7, 6) / (5, 9, 7)...
+		filt = []uint32{vIDs[0], vIDs[1], vIDs[0] + 2} // (5, 3, 7): span 3 == length, yet not the run 5..7
 	}
 	s := u.idx.NewSearch().WithQuery(q).WithK(k).WithThreshold(th).WithDocumentIDs(filt...)
 	nprobes := 0
@@ -287,7 +290,11 @@ func H_C02_node() {
 	kind := vChoose("kind", 5)
 	metric := []DistanceKind{L2Squared, Cosine}[vChoose("metric", 2)]
 	dim := 1
-	u := vMakeIndex(kind, metric, dim, 1)
+	nl := 1
+	if kind == vKIVF || kind == vKIVFPQ {
+		nl = 2 // the two stored vectors fall into different inverted lists
+	}
+	u := vMakeIndex(kind, metric, dim, nl)
 	n := 2
 	u.populate(n, dim)
 	u.oneOp(n, false)
@@ -297,6 +304,24 @@ func H_C02_node() {
 		id = vIDs[t]
 	}
 	k := 2
+	if vChoose("two_nodes", 2) == 1 {
+		// two node ids: an error iff one of them is unknown or removed; otherwise the two stored vectors as queries
+		first := vIDs[vChoose("first_node", n)]
+		r2n, e2n := u.idx.NewSearch().WithNode(first, id).WithK(10).Execute()
+		e1, e2 := u.m.find(first), u.m.find(id)
+		if e1 == nil || !e1.live || e2 == nil || !e2.live {
+			vAssert(e2n != nil, "unknown-or-removed-node-is-error")
+			vCover("node-error")
+			return
+		}
+		rq, eq := u.idx.NewSearch().WithQuery(vCopy(e1.vec), vCopy(e2.vec)).WithK(10).Execute()
+		vAssert((e2n == nil) == (eq == nil), "node-equals-vector-query-error")
+		if e2n == nil && eq == nil {
+			vSameResults(r2n, rq, "two-nodes-equal-two-vector-queries")
+		}
+		vCover("node-ok")
+		return
+	}
 	res, err := u.idx.NewSearch().WithNode(id).WithK(k).Execute()
 	e := u.m.find(id)
 	if e == nil || !e.live {
